@@ -134,7 +134,21 @@ def _vtop(b):
     return vtop
 
 
-BODIES = {"fmain_kw": _fmain_kw, "summ_in": _summ_in, "summ": _summ, "fmain": _fmain, "vleaf": _vleaf, "vtop": _vtop, "leaf": _leaf, "mid": _mid, "top": _top, "fanout": _fanout, "idt": _idt, "boom": _boom, "rec": _rec, "guard": _guard,
+def _sh(b):
+    def sh(x):
+        CALLS["sh"] += 1
+        return f"echo -n out-{x}-{b}"
+    return sh
+
+
+def _stop(b):
+    def stop(x):
+        CALLS["stop"] += 1
+        return [T("sh")(T("leaf")(x + b)), b]
+    return stop
+
+
+BODIES = {"sh": _sh, "stop": _stop, "fmain_kw": _fmain_kw, "summ_in": _summ_in, "summ": _summ, "fmain": _fmain, "vleaf": _vleaf, "vtop": _vtop, "leaf": _leaf, "mid": _mid, "top": _top, "fanout": _fanout, "idt": _idt, "boom": _boom, "rec": _rec, "guard": _guard,
           "big": _big, "usebig": _usebig}
 
 
